@@ -227,8 +227,7 @@ func c35RandBytes(r *rand.Rand) []byte {
 	return b
 }
 
-// entity-like pieces inside the part of html/entity.go that the model carries (ent_small);
-// they are always separated by a non-alphanumeric, non-';' byte.
+// entity-like pieces (named and numeric references, well formed and broken)
 var c35HtmlPieces = []string{
 	"&amp;", "&amp", "&AMP;", "&AMP", "&lt;", "&lt", "&LT;", "&gt;", "&gt", "&GT", "&quot;", "&quot", "&QUOT;", "&apos;", "&apos",
 	"&nbsp;", "&nbsp", "&copy;", "&copy", "&ampx", "&ampx;", "&ltx;", "&gtzq", "&quotzq;", "&amp;lt;", "&amp;amp;", "&amp;#39;",
@@ -236,6 +235,15 @@ var c35HtmlPieces = []string{
 	"&#99999999999;", "&#4294967335;", "&#2147483648;", "&#xffffffff;", "&#x100000027;", "&#;", "&#x;", "&#X;", "&#5x", "&#5", "&#55x", "&#x5", "&#xg", "&#", "&#x", "&#a;",
 	"&", "&&", "&;", "&zq;", "&zqzq", "&zq", "&1;", "&12zq;", "&#233;", "&#xe9;", "&#8364;", "&#x20ac;", "&#128512;", "&#x1F600;", "&#65533;",
 	"plain", "text", "a", "1", "#39;", "amp;", "x27;",
+	// numeric references: the five escaped bytes, overlong, out of range, surrogates
+	"&#38;", "&#x26;", "&#X26;", "&#0000038;", "&#x0000000000026;", "&#60;", "&#x3c;", "&#x3C;", "&#62;", "&#x3e", "&#34;", "&#x22;", "&#039;", "&#00039",
+	"&#x110000;", "&#x10FFFF;", "&#xD800;", "&#xd7ff;", "&#xE000;", "&#57343;", "&#xFFFFFFFFF;", "&#18446744073709551654;", "&#x7fffffff;", "&#x80000000;", "&#2147483647;",
+	"&#129;", "&#x81;", "&#150;", "&#x9F;", "&#160;", "&#xa0;", "&#127;", "&#x7f;", "&#9;", "&#10;", "&#1;", "&#x0;", "&#00;", "&#38", "&#38x", "&#3;8;", "&#x2;6",
+	// the whole entity table of html/entity.go is in the model now
+	"&eacute;", "&eacute", "&Eacute;", "&notit;", "&not", "&notin;", "&ltcc;", "&gtcc;", "&ampere;", "&NotEqualTilde;", "&bne;", "&acE;", "&fjlig;", "&nvlt;",
+	"&CounterClockwiseContourIntegral;", "&CounterClockwiseContourIntegralx;", "&para", "&parax", "&paragraph", "&sect2", "&uml;", "&yen5", "&THORN", "&thorn;", "&ETH", "&eth",
+	"&reg", "&REG;", "&COPY", "&copy;", "&deg", "&micro", "&middot", "&frac12", "&frac34x", "&sup1", "&sup2;", "&times", "&divide", "&szlig", "&zwj;", "&zwnj;", "&lrm;",
+	"&Aacute", "&aacut", "&aacutee;", "&ac", "&ac;", "&ap;", "&mu;", "&mu", "&pi;", "&Pi;", "&xi;", "&gg;", "&Gg;", "&ll;", "&Lt;", "&lT;", "&GT;", "&Gt;", "&gT;",
 }
 var c35HtmlSeps = []string{" ", "=", "\xff", "\n", "<", ">", "\"", "'", "-", ".", "\xc3\xa9", "/", " & ", "&="}
 
@@ -243,10 +251,32 @@ func c35HtmlDec(r *rand.Rand) []byte {
 	var b []byte
 	n := 1 + r.Intn(6)
 	for i := 0; i < n; i++ {
-		if i > 0 {
+		if i > 0 && r.Intn(3) != 0 { // pieces may also touch: the model knows the whole entity table
 			b = append(b, c35HtmlSeps[r.Intn(len(c35HtmlSeps))]...)
 		}
-		b = append(b, c35HtmlPieces[r.Intn(len(c35HtmlPieces))]...)
+		switch r.Intn(6) {
+		case 0: // random name
+			b = append(b, '&')
+			for k := r.Intn(8); k >= 0; k-- {
+				b = append(b, "abcdefghijklmnopqrstuvwxyzABCDEGLNOT0123456789"[r.Intn(46)])
+			}
+			if r.Intn(2) == 0 {
+				b = append(b, ';')
+			}
+		case 1: // random numeric reference
+			b = append(b, "&#"...)
+			if r.Intn(2) == 0 {
+				b = append(b, "xX"[r.Intn(2)])
+				b = append(b, strconv.FormatUint(r.Uint64()>>uint(r.Intn(64)), 16)...)
+			} else {
+				b = append(b, strconv.FormatUint(r.Uint64()>>uint(r.Intn(64)), 10)...)
+			}
+			if r.Intn(3) != 0 {
+				b = append(b, ';')
+			}
+		default:
+			b = append(b, c35HtmlPieces[r.Intn(len(c35HtmlPieces))]...)
+		}
 	}
 	return b
 }
@@ -319,6 +349,7 @@ func (c35) Gen(seed int64, tier string, emit func(any)) {
 		}
 		if i%4 == 0 {
 			e("html", "dec", c35HtmlDec(r))
+			e("html", "dec", c35RandBytes(r))
 			e("url", "dec", c35UrlDec(r))
 			e("escape", "dec", c35HtmlDec(r))
 			q := strconv.Quote(string(c35RandBytes(r)))
@@ -326,11 +357,7 @@ func (c35) Gen(seed int64, tier string, emit func(any)) {
 			if len(q) > 2 { // damage the literal
 				qb := []byte(q)
 				qb[r.Intn(len(qb))] = c35Special[r.Intn(len(c35Special))]
-				// when Unquote fails the text goes through html.UnescapeString: keep it
-				// inside the modelled part of the entity table (no '&' at all)
-				if _, uerr := strconv.Unquote(string(qb)); uerr == nil || !strings.Contains(string(qb), "&") {
-					e("escape", "dec", qb)
-				}
+				e("escape", "dec", qb) // when Unquote fails the text goes through html.UnescapeString
 			}
 		}
 	}
